@@ -58,6 +58,7 @@ type SimSCTP struct {
 	reads  int
 	tag    int
 	wfault *WriteFault
+	resume chan struct{}
 	laddr, raddr net.Addr
 }
 
@@ -136,6 +137,17 @@ func (s *SimSCTP) SCTPWrite(b []byte, info *sctp.SndRcvInfo) (int, error) {
 	if info != nil {
 		st = info.Stream
 	}
+	if f := s.wfault; f != nil && f.Kind == "stall" {
+		// the association's send buffer is full: the write parks until the engine resumes it
+		s.wfault = nil
+		ch := make(chan struct{})
+		s.resume = ch
+		s.e.ParkBegin(true)
+		s.mu.Unlock()
+		s.e.Fault("sctp-write-stall")
+		<-ch
+		s.mu.Lock()
+	}
 	if f := s.wfault; f != nil {
 		s.wfault = nil
 		k := f.After
@@ -148,6 +160,20 @@ func (s *SimSCTP) SCTPWrite(b []byte, info *sctp.SndRcvInfo) (int, error) {
 	}
 	s.writes = append(s.writes, sctpWrite{st, append([]byte{}, b...), s.tag, false})
 	return len(b), nil
+}
+
+// Resume releases a stalled write.
+func (s *SimSCTP) Resume() {
+	s.mu.Lock()
+	ch := s.resume
+	s.resume = nil
+	if ch != nil {
+		s.e.ParkEnd(true)
+	}
+	s.mu.Unlock()
+	if ch != nil {
+		close(ch)
+	}
 }
 
 func (s *SimSCTP) SetTag(t int) {
@@ -193,7 +219,7 @@ type c19Seen struct {
 // c19Run: streams is nil for the seeded search, or the prepared sweep input.
 func c19Run(e *Env, wide bool, sw *c19SweepCase) {
 	t := e.T
-	e.TrustWait = true
+	e.TrustWait = false // writes may be stalled inside the association with other writers queued behind them
 	e.maxStep = 400
 	be := newSimSCTP(e)
 	msc := diam.NewVerifSCTPConn(be)
@@ -201,9 +227,9 @@ func c19Run(e *Env, wide bool, sw *c19SweepCase) {
 	var mu sync.Mutex
 	var seen []c19Seen
 	type deferredAns struct {
-		a  *diam.Message
-		c  diam.Conn
-		id int
+		build func() *diam.Message
+		c     diam.Conn
+		id    int
 	}
 	var deferred []deferredAns
 	answers := 0
@@ -221,19 +247,24 @@ func c19Run(e *Env, wide bool, sw *c19SweepCase) {
 			}
 		}
 		mu.Unlock()
-		a := m.Answer(rc)
-		if len(m.AVP) > 0 {
-			a.NewAVP(avpSimOctets, 0, 0, datatype.OctetString(m.AVP[0].Data.Serialize()))
+		build := func() *diam.Message {
+			a := m.Answer(rc)
+			if len(m.AVP) > 0 {
+				a.NewAVP(avpSimOctets, 0, 0, datatype.OctetString(m.AVP[0].Data.Serialize()))
+			}
+			return a
 		}
 		mu.Lock()
 		answers++
 		id := answers
 		later := deferPlan[id%len(deferPlan)]
 		if later {
-			deferred = append(deferred, deferredAns{a, c, id})
+			// the answer is built and written later, from another goroutine
+			deferred = append(deferred, deferredAns{build, c, id})
 		}
 		mu.Unlock()
 		if !later {
+			a := build()
 			be.SetTag(id)
 			if wide {
 				a.WriteToWithRetry(c, 2)
@@ -451,14 +482,55 @@ func c19Run(e *Env, wide bool, sw *c19SweepCase) {
 			done := make(chan struct{})
 			go func() {
 				defer close(done)
+				a := d.build()
 				if wide {
-					d.a.WriteToWithRetry(d.c, 2)
+					a.WriteToWithRetry(d.c, 2)
 				} else {
-					d.a.WriteTo(d.c)
+					a.WriteTo(d.c)
 				}
 			}()
 			e.Quiesce()
 			<-done
+		}
+	}
+	// flushConcurrent writes several deferred answers at once: the first write stalls
+	// inside the association (holding the connection's write lock), the others queue.
+	flushConcurrent := func() {
+		mu.Lock()
+		if len(deferred) < 2 {
+			mu.Unlock()
+			return
+		}
+		n := min(len(deferred), 3)
+		batch := append([]deferredAns{}, deferred[:n]...)
+		deferred = deferred[n:]
+		mu.Unlock()
+		be.ArmWriteFault(&WriteFault{Kind: "stall"})
+		be.SetTag(-1) // attempts are attributed by their marker below
+		dones := make([]chan struct{}, n)
+		for i, d := range batch {
+			dones[i] = make(chan struct{})
+			go func(d deferredAns, done chan struct{}) {
+				defer close(done)
+				a := d.build()
+				if wide {
+					a.WriteToWithRetry(d.c, 2)
+				} else {
+					a.WriteTo(d.c)
+				}
+			}(d, dones[i])
+			e.Quiesce()
+		}
+		e.Act("concurrent-answers", "%d", n)
+		e.Probe("concurrent-deferred-answers")
+		be.Resume()
+		e.Quiesce()
+		for _, d := range dones {
+			select {
+			case <-d:
+			default:
+				e.Fail("C19/answer-write-stuck", "an answer written while another write was stalled never completed")
+			}
 		}
 	}
 	pos := 0
@@ -490,6 +562,9 @@ func c19Run(e *Env, wide bool, sw *c19SweepCase) {
 		e.Act("feed", "%d chunk(s), %d stream(s)", k, len(buffered))
 		e.Quiesce()
 		if sw == nil && t.Chance(1, 2) {
+			if t.Chance(1, 3) {
+				flushConcurrent()
+			}
 			flushDeferred(1)
 		}
 		if be.IsClosed() {
@@ -527,6 +602,20 @@ func c19Run(e *Env, wide bool, sw *c19SweepCase) {
 		// reassemble answers from their write attempts; every attempt must use one stream
 		var ws []sctpWrite
 		byTag := map[int]int{}
+		for ai := range raw {
+			if raw[ai].tag == -1 {
+				// written by concurrent tasks: whole messages, identified by their marker
+				tg := -1000 - ai
+				if rm, err := refParse(raw[ai].data); err == nil {
+					if mk := rm.find(avpSimOctets); mk != nil {
+						if sid, k, ok := parseMarker(mk.Data); ok {
+							tg = -1000000 - sid*1000 - k
+						}
+					}
+				}
+				raw[ai].tag = tg
+			}
+		}
 		for _, a := range raw {
 			i, ok := byTag[a.tag]
 			if !ok {
@@ -680,4 +769,136 @@ func c19Sweep(e *Env) {
 	e.Act("sweep", "split=%d order=%v", sp, sw.order)
 	c19Run(e, false, sw)
 	_ = fmt.Sprint
+}
+
+// ---------------------------------------------------------------- C15 on SCTP associations
+
+// c15Sctp: several associations served through one mux; one of them fails in the
+// middle of a message. The others must be served completely and the process must live.
+func c15Sctp(e *Env) {
+	t := e.T
+	e.TrustWait = true
+	e.maxStep = 200
+	type assoc struct {
+		name   string
+		be     *SimSCTP
+		chunks []sctpChunk
+		next   int
+		total  int // messages planned
+		faultAt int // feed index at which the association fails (-1 = healthy)
+		failed bool
+	}
+	var mu sync.Mutex
+	handled := map[string]int{}
+	mux := diam.NewServeMux()
+	mux.HandleFunc("ALL", func(c diam.Conn, m *diam.Message) {
+		if len(m.AVP) > 0 {
+			if ai, _, ok := parseMarker(m.AVP[0].Data.Serialize()); ok {
+				mu.Lock()
+				handled[fmt.Sprintf("a%d", ai)]++
+				mu.Unlock()
+			}
+		}
+		a := m.Answer(2001)
+		a.WriteTo(c)
+	})
+	reports := 0
+	na := t.Range(2, 3)
+	faulty := t.Draw(na)
+	var as []*assoc
+	for i := 0; i < na; i++ {
+		a := &assoc{name: fmt.Sprintf("a%d", i), be: newSimSCTP(e), faultAt: -1}
+		a.be.raddr = &net.TCPAddr{IP: net.IPv4(10, 0, 1, byte(i+1)), Port: 40000 + i}
+		ns := t.Range(1, 2)
+		seq := 0
+		for s := 0; s < ns; s++ {
+			nm := t.Range(1, 3)
+			var all []byte
+			for k := 0; k < nm; k++ {
+				size := []int{0, 40, 1100}[t.Draw(3)]
+				m := RefMsg{Cmd: 900, Flags: 0x80, HbH: uint32(seq + 1), E2E: uint32(seq + 1), AVPs: []RefAVP{{Code: avpSimOctets, Data: marker(i, seq, 24+size, byte(i))}}}
+				all = append(all, m.Bytes()...)
+				seq++
+			}
+			for pos := 0; pos < len(all); {
+				k := []int{len(all) - pos, t.Range(1, 19), 20, t.Range(21, 200)}[t.Draw(4)]
+				if k > len(all)-pos {
+					k = len(all) - pos
+				}
+				a.chunks = append(a.chunks, sctpChunk{uint16(s + 1), all[pos : pos+k]})
+				pos += k
+			}
+			a.total += nm
+		}
+		if i == faulty {
+			a.faultAt = t.Range(0, len(a.chunks))
+		}
+		msc := diam.NewVerifSCTPConn(a.be)
+		defer diam.VerifSCTPRelease(msc)
+		if _, err := diam.NewConn(msc.(net.Conn), "sim", mux, simDict()); err != nil {
+			e.Harness("NewConn: %v", err)
+		}
+		as = append(as, a)
+	}
+	e.Act("sctp-faults", "assocs=%d faulty=%d at chunk %d", na, faulty, as[faulty].faultAt)
+	for e.Step() {
+		var live []*assoc
+		for _, a := range as {
+			if !a.failed && (a.next < len(a.chunks) || a.faultAt == a.next) {
+				live = append(live, a)
+			}
+		}
+		if len(live) == 0 {
+			break
+		}
+		a := live[t.Draw(len(live))]
+		if a.faultAt == a.next {
+			a.be.End(errSimReset)
+			a.failed = true
+			e.Fault("sctp-read-error")
+			e.Act("fail", "%s", a.name)
+		} else {
+			a.be.Feed(a.chunks[a.next])
+			a.next++
+			e.Act("feed", "%s", a.name)
+		}
+		e.NonTrivial()
+		e.Quiesce()
+		for {
+			select {
+			case <-mux.ErrorReports():
+				reports++
+				continue
+			default:
+			}
+			break
+		}
+	}
+	mu.Lock()
+	defer mu.Unlock()
+	for _, a := range as {
+		if a.failed {
+			if !a.be.IsClosed() {
+				e.Fail("C15/faulty-connection-not-closed/sctp", "%s: the association's read failed and it was not closed", a.name)
+			}
+			continue
+		}
+		if handled[a.name] != a.total {
+			e.Fail("C15/healthy-connection-not-served/sctp", "%s: %d of %d messages handled after another association failed", a.name, handled[a.name], a.total)
+		}
+		if a.be.IsClosed() {
+			e.Fail("C15/healthy-connection-closed/sctp", "%s had no fault but was closed", a.name)
+		}
+		a.be.mu.Lock()
+		nw := len(a.be.writes)
+		a.be.mu.Unlock()
+		if nw != a.total && !e.Failed() {
+			e.Fail("C15/answer-count/sctp", "%s: %d answers for %d requests", a.name, nw, a.total)
+		}
+	}
+	for _, a := range as {
+		a.be.End(io.EOF)
+	}
+	e.Quiesce()
+	_ = reports
 }
